@@ -112,6 +112,12 @@ func runCase(t *testing.T, p *pool, c *GCase) {
 		for i := range aobs {
 			decoy[i] = ocr2plustypes.AttributedObservation{Observation: append([]byte(nil), aobs[(i+1)%len(aobs)].Observation...), Observer: aobs[i].Observer}
 		}
+		// ... the first abandoned attempt on instance 1 even came with ANOTHER previous outcome of the very same
+		// length (a valid, empty one, padded with blanks): what the round before committed is an argument too
+		if empty := []byte(`{"AgreedPerformables":null,"SurfacedProposals":null}`); len(outctx.PreviousOutcome) >= len(empty) {
+			other := append(empty, bytes.Repeat([]byte(" "), len(outctx.PreviousOutcome)-len(empty))...)
+			_, _ = nodes[1].Plugin.Outcome(context.Background(), ocr3types.OutcomeContext{SeqNr: c.Seq, PreviousOutcome: other}, nil, decoy)
+		}
 		for _, ao := range decoy {
 			_ = nodes[1].Plugin.ValidateObservation(context.Background(), outctx, nil, ao)
 		}
